@@ -28,7 +28,8 @@ def run(ctx, out):
                 "user xattr sets, uid/gid pairs (root), every combination of --no-perms/--no-timestamps/--ownership(/--fsync), "
                 "fresh and pre-existing destinations (other mode/owner/xattrs), both drivers, multi-block files with 4 workers "
                 "under random thread holds; plus trees of 8 files in which ONE best-effort xattr call is refused: every other file "
-                "keeps its exact metadata; non-trivial = mode with a set-id/sticky bit, or xattrs, or non-root ids, or a flag; "
+                "keeps its exact metadata; plus copies made by a NON-root process that may change owners (setpriv: uid 4242 with ambient "
+                "CAP_CHOWN/FOWNER/FSETID/DAC_OVERRIDE), with and without --ownership; non-trivial = mode with a set-id/sticky bit, or xattrs, or non-root ids, or a flag; "
                 "distinct = distinct case tuple")
     modes = MODES_CORE if quick else list(range(0, 0o10000))
     cases = []
@@ -226,6 +227,47 @@ def run(ctx, out):
                                   % (rel, why, sorted(exempt) or "none"), rep)
                     break
         shutil.rmtree(d, ignore_errors=True)
+    # ---- the copying process is NOT root but may change owners (a service account holding CAP_CHOWN, CAP_FOWNER, ...): what is
+    #      requested does not depend on who asks — with --ownership the source's uid AND gid, without it the creator's
+    import subprocess
+    CAPS = "+chown,+fowner,+fsetid,+dac_override"
+    SVC = ["setpriv", "--reuid", "4242", "--regid", "4242", "--clear-groups", "--inh-caps", CAPS, "--ambient-caps", CAPS, "--"]
+    can = shutil.which("setpriv") and os.geteuid() == 0 and \
+        subprocess.run(SVC + ["sh", "-c", 'grep -q "^CapEff:.*[1-9a-f]" /proc/self/status'], capture_output=True).returncode == 0
+    if not can:
+        out.count("service_account_runs_skipped_no_ambient_caps")
+    else:
+        k = 0
+        for driver in ("parfile", "parblock"):
+            for ids in [(2000, 3000), (0, 0), (4242, 3000), (2001, 4242), (0, 3001)]:
+                for own in ((True,) if quick and ids != (2000, 3000) else (True, False)):
+                    k += 1
+                    d = os.path.join(d0, "svc%d" % k)
+                    os.makedirs(d)
+                    os.chmod(d, 0o777)
+                    src, dst = os.path.join(d, "s"), os.path.join(d, "t")
+                    size = rng.choice([1, 5000, 70000])
+                    fsutil.make_file(src, size, [(0, size)], tag=k, sync=False)
+                    mode = rng.choice([0o644, 0o600, 0o4755, 0o2750])
+                    os.chown(src, *ids)
+                    os.chmod(src, mode)
+                    argv = SVC + [ctx.bins["xcp"], "--driver", driver, "-w", "2", "--reflink", "never"] + (["--ownership"] if own else []) + [src, dst]
+                    r = xcp.run_plain(argv, d)
+                    out.case(("service-account", driver, ids, own, mode), True)
+                    out.count("service_account_runs")
+                    rep = dict(kind="copy by uid 4242 holding CAP_CHOWN/CAP_FOWNER/CAP_FSETID/CAP_DAC_OVERRIDE", argv=argv, source_owner=ids,
+                               source_mode=oct(mode), exit=r.exit, stderr=r.stderr[-300:])
+                    if r.exit != 0:
+                        out.violation("plain copy by a capable non-root process failed: exit %d" % r.exit, rep)
+                    else:
+                        st = os.stat(dst)
+                        want = ids if own else (4242, 4242)
+                        if (st.st_uid, st.st_gid) != want:
+                            out.violation("%s: owner %s copied as %s by a non-root process that may change owners"
+                                          % ("--ownership" if own else "no --ownership", ids, (st.st_uid, st.st_gid)), rep)
+                        elif st.st_mode & 0o7777 != mode:
+                            out.violation("mode %o copied as %o by a non-root process that may change owners" % (mode, st.st_mode & 0o7777), rep)
+                    shutil.rmtree(d, ignore_errors=True)
     if ctx.model_ok and minputs:
         res = core.run_model("run_finalise", minputs, shard=40, tag="c10")
         for (rep, acts, final, nt_), mo in zip(obs, res):
